@@ -32,8 +32,21 @@ def _key(ex, st, ident):
 # ---- compile-time store: LocalEnv as a ghost map ident -> (type_def name, constant Option<Value>)
 
 def m_local_variable(ex, st, callee, args, dest_ty, frame, depth):
+    """LocalEnv::variable(ident) -> Option<&Details>; the details' constant is related to the runtime store by R"""
     key = _key(ex, st, args[1])
-    return [(st, Outcome("ret", ex.fresh(dest_ty, f"local0[{key}]")))]
+    out = []
+    s_none = st.fork()
+    out.append((s_none, Outcome("ret", Enum(dest_ty, bv64(0), {}))))
+    cell = f"details[{key}]"
+    if cell not in st.heap:
+        rec = ex.fresh(OPT_VAL, f"local0[{key}].value")
+        st.heap[cell] = Agg("compiler::type_def::Details", {0: ex.fresh("compiler::type_def::TypeDef", f"local0[{key}].type_def"), 1: rec})
+        vv0 = V(ex, st)
+        rt = RL.vars_lookup(ex, st, key)
+        ex.add_invariant(("R", key), z3.Implies(vv0.is_variant(rec, "Some", OPT_VAL),
+                                                z3.And(vv0.is_variant(rt, "Some", OPT_VAL), vv0.same(vv0.field(rt, "Some", 0, VAL), vv0.field(rec, "Some", 0, VAL)))))
+    out.append((st, Outcome("ret", ex.mk_enum(dest_ty, "Some", [Ref("&compiler::type_def::Details", cell, ())]))))
+    return out
 
 
 def m_local_insert(ex, st, callee, args, dest_ty, frame, depth):
@@ -82,7 +95,7 @@ ORACLES = [
     (re.compile(r"^value::value::Value::insert::<|<impl value::value::Value>::insert::<"), m_value_insert),
 ]
 
-OPAQUE = [r"^TypeDef::\w+(::<.*>)?$", r"^<TypeDef as Clone>::clone$", r"^OwnedValuePath::is_root$",
+OPAQUE = [r"^value::value::Value::(remove|get)::<|<impl value::value::Value>::(remove|get)::<", r"^<value::value::Value as Clone>::clone$", r"^TypeDef::\w+(::<.*>)?$", r"^<TypeDef as Clone>::clone$", r"^OwnedValuePath::is_root$",
           r"^value::value::Value::at_path::<|<impl value::value::Value>::at_path::<", r"^ExternalEnv::\w+$", r"^(state::)?ExternalEnv::\w+$",
           r"^context::Context::<'_>::target_mut$", r"^<dyn (target::)?Target as (target::)?Target>::target_insert$", r"<impl value::kind::Kind>::\w+(::<.*>)?$", r"^value::kind::Kind::\w+(::<.*>)?$", r"Kind::insert::<",
           ]
@@ -289,6 +302,9 @@ def variable_battery():
 def battery():
     """accepted programs whose divisor's 'constant' went stale through a path assignment / deletion"""
     return [
+        ({"source": "x = [1, 2, 3]\nx[0] = .divisor\n.r = 10 / x[0]\n", "event": {"divisor": 0}}, {"accepted_never_fails": True}),
+        ({"source": "x = {\"a\": 2, \"b\": 3}\nx.a = .divisor\n.r = 10 / x.a\n", "event": {"divisor": 0}}, {"accepted_never_fails": True}),
+        ({"source": "x = [[1, 2], 3]\nok, err = (x[0][0] = 5 / .divisor)\n.r = 10 / x[0][0]\n", "event": {"divisor": 0}}, {"accepted_never_fails": True}),
         ({"source": "x = {\"a\": 1}\nx.a = 5\n.r = 10 / x\n", "event": {}}, {"accepted_never_fails": True}),
         ({"source": "x = {\"a\": 2}\nx.b = 0\n.r = 10 / x.a\n", "event": {}}, {"accepted_never_fails": True, "event_eq": {"r": {"Float": "0x4014000000000000"}}}),
         ({"source": "x = [1, 2]\nx[1] = 7\n.r = 10 / x\n", "event": {}}, {"accepted_never_fails": True}),
